@@ -218,6 +218,42 @@ func bbGenQueries(r *rand.Rand, t *Table, n int) []bbQuery {
 		}
 		qs = append(qs, bbQuery{cond: cond, mode: "point"})
 	}
+	// phrase conjunctions built from written rows: MATCHPHRASE on the column a bloom
+	// filter covers AND a MATCHPHRASE (or equality) on a column it does not cover, both
+	// satisfied by an existing row, flat and nested with OR
+	firstToken := func(v string) string {
+		if i := strings.IndexByte(v, ' '); i > 0 {
+			return v[:i]
+		}
+		return v
+	}
+	for k := 0; k < 16 && len(t.Rows) > 0; k++ {
+		row := t.Rows[r.IntN(len(t.Rows))]
+		other := t.Rows[r.IntN(len(t.Rows))]
+		ps := mk("s", "MATCHPHRASE", Lit{Kind: tString, S: row.V[5].S})
+		pw := mk("w", "MATCHPHRASE", Lit{Kind: tString, S: firstToken(row.V[6].S)})
+		pkb := mk("kb", "MATCHPHRASE", Lit{Kind: tString, S: firstToken(row.V[1].S)})
+		var cond *Node
+		switch k % 8 {
+		case 0:
+			cond = &Node{Op: "AND", L: ps, R: pw}
+		case 1:
+			cond = &Node{Op: "AND", L: pw, R: ps}
+		case 2:
+			cond = &Node{Op: "AND", L: pkb, R: pw}
+		case 3:
+			cond = &Node{Op: "AND", L: ps, R: pkb}
+		case 4:
+			cond = &Node{Op: "AND", L: pw, R: &Node{Op: "OR", L: ps, R: mk("s", "MATCHPHRASE", Lit{Kind: tString, S: other.V[5].S})}}
+		case 5:
+			cond = &Node{Op: "AND", L: &Node{Op: "OR", L: pw, R: mk("w", "MATCHPHRASE", Lit{Kind: tString, S: firstToken(other.V[6].S)})}, R: ps}
+		case 6:
+			cond = &Node{Op: "AND", L: &Node{Op: "AND", L: ps, R: pw}, R: pkb}
+		default:
+			cond = &Node{Op: "AND", L: pkb, R: &Node{Op: "AND", L: mk("ka", "=", Lit{Kind: tString, S: row.V[0].S}), R: ps}}
+		}
+		qs = append(qs, bbQuery{cond: cond, mode: "matchphrase"})
+	}
 	for len(qs) < n {
 		mode := "plain"
 		switch x := r.IntN(20); {
